@@ -369,3 +369,68 @@ def find_loops(m: str, body_open: int, body_close: int):
         c = match_close(m, o)
         loops.append((kw, s, o, c))
     return loops
+
+
+def find_closures(m: str, body_open: int, body_close: int):
+    """Closures inside a function body in source order: (start, params_end, body_start, body_end, is_block).
+    Lexical heuristic for rustfmt-formatted code: a `|` that follows `(`, `,`, `=` or `move`/`return`
+    opens a closure parameter list (an or-pattern or a bit-or always follows an operand)."""
+    res = []
+    k = body_open + 1
+    while k < body_close:
+        if m[k] != "|":
+            k += 1
+            continue
+        # previous significant char
+        j = k - 1
+        while j > body_open and m[j] in " \t\n":
+            j -= 1
+        prev = m[j]
+        word = re.search(r"(\w+)$", m[max(body_open, j - 10) : j + 1])
+        is_start = prev in "(,=" or (word is not None and word.group(1) in ("move", "return"))
+        if prev == "=" and j > 0 and m[j - 1] in "|&^<>!=+-*/%":
+            is_start = False  # compound assignment like |=
+        if not is_start:
+            k += 1
+            if k < body_close and m[k] == "|":
+                k += 1
+            continue
+        if m[k + 1] == "|":
+            pe = k + 1
+        else:
+            pe = k + 1
+            d = 0
+            while pe < body_close:
+                ch = m[pe]
+                if ch in "([<":
+                    d += 1
+                elif ch in ")]>":
+                    d -= 1
+                elif ch == "|" and d <= 0:
+                    break
+                pe += 1
+        b = pe + 1
+        while b < body_close and m[b] in " \t\n":
+            b += 1
+        if m[b] == "{":
+            e = match_close(m, b) + 1
+            res.append((k, pe, b, e, True))
+            k = b + 1  # nested closures inside the block are found too
+            continue
+        # expression body: up to the first depth-0 `,` or the closing bracket of the enclosing call
+        d = 0
+        e = b
+        while e < body_close:
+            ch = m[e]
+            if ch in "([{":
+                d += 1
+            elif ch in ")]}":
+                if d == 0:
+                    break
+                d -= 1
+            elif ch == "," and d == 0:
+                break
+            e += 1
+        res.append((k, pe, b, e, False))
+        k = pe + 1
+    return res
